@@ -577,6 +577,9 @@ class Memory():
                 self._write_requests_lock.release()
                 return
             wreq = self._write_requests[id][0]
+            # The callers of this session, a disconnect handled by another thread replaces them
+            write_cb = self.mem_write_cb
+            write_failed_cb = self.mem_write_failed_cb
             if status == 0:
                 if wreq.write_done(addr):
                     # self._write_requests.pop(id, None)
@@ -602,9 +605,9 @@ class Memory():
             # Call callbacks after the lock has been released to alow for new writes
             # to be initiated from the callback.
             if do_call_sucess_cb:
-                self.mem_write_cb.call(wreq.mem, wreq.addr)
+                write_cb.call(wreq.mem, wreq.addr)
             if do_call_fail_cb:
-                self.mem_write_failed_cb.call(wreq.mem, wreq.addr)
+                write_failed_cb.call(wreq.mem, wreq.addr)
 
     def _handle_chan_read(self, cmd, payload):
         id = cmd
